@@ -80,7 +80,8 @@ def ref_env(ev: refsem.Evaluator, model, t_names=("t", "time")) -> dict:
     """name -> exact real value for every name that evaluates ok (for sym_eval)"""
     out = {}
     for n in list(ev.env):
-        out[n] = ev.env[n].val
+        if not isinstance(ev.env[n], refsem.RefError):
+            out[n] = ev.env[n].val
     for a in model["assigns"]:
         kind, r = ev.status(a["name"])
         if kind == "ok":
